@@ -308,7 +308,17 @@ func (v *FHIRPathVisitor) VisitLiteralTerm(ctx *grammar.LiteralTermContext) inte
 func (v *FHIRPathVisitor) VisitExternalConstantTerm(ctx *grammar.ExternalConstantTermContext) interface{} {
 	ident := ctx.ExternalConstant().GetText()
 	ident = strings.TrimPrefix(ident, "%")
+	ident = unquoteIdentifier(ident) // %`name` and %'name' denote the same constant as %name
 	return v.transformedVisitResult(&expr.ExternalConstantExpression{Identifier: ident})
+}
+
+// unquoteIdentifier removes the delimiters of a delimited identifier (`name`)
+// or of a string used as the name of an external constant ('name').
+func unquoteIdentifier(ident string) string {
+	if len(ident) >= 2 && (ident[0] == '`' || ident[0] == '\'') && ident[len(ident)-1] == ident[0] {
+		return ident[1 : len(ident)-1]
+	}
+	return ident
 }
 
 func (v *FHIRPathVisitor) VisitParenthesizedTerm(ctx *grammar.ParenthesizedTermContext) interface{} {
@@ -422,7 +432,7 @@ func (v *FHIRPathVisitor) VisitExternalConstant(ctx *grammar.ExternalConstantCon
 // VisitMemberInvocation checks to see if the identifier corresponds to a resource type and is the
 // root of the expression. If so, it will return a TypeExpression. Otherwise, it returns a FieldExpression.
 func (v *FHIRPathVisitor) VisitMemberInvocation(ctx *grammar.MemberInvocationContext) interface{} {
-	identifier := ctx.GetText()
+	identifier := unquoteIdentifier(ctx.GetText()) // `div` denotes the element div
 	var expression expr.Expression
 
 	if resource.IsType(identifier) && !v.visitedRoot {
